@@ -16,7 +16,17 @@ THEOREMS = [
     "C02.set_debug_transparent",
     "C02.workflow_step_is_focus_then_execute",
     "C02.calls_are_history",
+    "C02.exec_passes_accepted_rel",
+    "C02.exec_passes_accepted",
+    "C02.exec_err_accepted",
+    "C02.history_passes_accepted",
+    "C02.workflow_steps_accepted",
+    "C02.should_iff",
+    "C02.segPass_sublist",
+    "C02.activeAt_boundaries",
+    "C02.exec_date_boundaries",
 ]
+LEAN_TARGETS = ["RreModel.C02.Theorems", "RreModel.C02.Theorems2"]
 N = {"quick": 12000, "thorough": 150000}
 EXHAUSTIVE = {"quick": False, "thorough": False}
 # C02's oracle uses the counter / fixpoint predicates of C03.Spec, so those files are audited as well
@@ -29,6 +39,13 @@ RULE = ("cases = corpus (incl. the F-C02 witness) + N random histories of 1..5 A
         "{i32::MIN,-5,0,0,7,7,i32::MAX}, all combinations of enabled/no-loop/lock-on-active, 2..3 agenda groups "
         "(MAIN implicit and explicit), 0..2 activation groups, date windows at 9,10,11,19,20,21,29,30,31 around the evaluation "
         "timestamps 10/20/30 and around 'now' for the callback twin, Set / field+k / ActivateAgendaGroup actions, max_cycles in {1,2,3,5}. "
+        "Instants are nanoseconds in the model (<sec>f<nanos> in the case text): a boundary-walk family (N/15: one engine, a rule with the window [e, x) "
+        "plus one-sided, disabled and empty-window neighbours, execute_at_time at the ticks e-1, e, e+1, x-1, x, x+1 in ascending / descending / random "
+        "order, tick = 1 s, 100 ms, 500 us, 1 us or 1 ns on a base instant with a sub-second part, so that evaluation instants and bounds share the second / "
+        "millisecond / microsecond and differ in the part below; dates through the three builders with 3 / 6 / 9 fractional digits in the texts, the evaluation "
+        "timestamp through the text or as a DateTime<Utc> built by chrono arithmetic, X<t>u) and a knowledge-base replacement family (N/20: edits that raise the "
+        "version counter, an execute, then *knowledge_base_mut() = new_kb with a freshly built base of the same / a smaller / a larger version() and more, as many "
+        "or fewer rules — op H<s|l|g>&rule&… —, further executes; the op is also drawn in the random histories). "
         "Every date attribute is handed to the rule in one of three ways (recorded in the case text, nat@how): with_date_effective_str / "
         "with_date_expires_str on the RFC 3339 text ending in Z; the same string twins on the SAME instant written with a UTC offset "
         "(16 real-world and extreme offsets from -23:59 to +23:59 incl. +00:00, +05:30, +05:45, -12:00, +14:00, and random minute offsets; "
@@ -41,8 +58,13 @@ RULE = ("cases = corpus (incl. the F-C02 witness) + N random histories of 1..5 A
         "Each case is run on the real engine (firing sequence through the callback and through marker actions for execute_at_time, "
         "result counters, get_active_agenda_group, facts after every call) and on the Lean model; the observation lines are diffed and the "
         "Spec clauses (C02.Ref.scan = no-loop once / lock-on-active once per activation over the whole history; fired rules enabled, in "
-        "their date window and in the focused group; one firing per activation group and first-eligible-true by single-pass replay; "
-        "order = sublist of the stable descending sort; counters; fixpoint on early stop) are evaluated on the implementation's observations. "
+        "their date window and in the focused group; counters; fixpoint on early stop; and the segmented replay C02.segAccept on EVERY call that returns Ok, "
+        "however many passes it made: the log is cut into cycle_count passes by walking the sorted vector pass after pass from reference bookkeeping derived from "
+        "the observations (facts and focus as observed, the fired rules' actions applied, no-loop / lock-on-active sets carried across passes and calls, "
+        "activation groups per pass); at every rule's turn the letter of the property decides whether it fires, so every pass is a subsequence of the stable "
+        "descending sort with at most one rule per activation group, the one that fires is the first eligible one with a true condition, and the last pass "
+        "of a call that returns before the bound fires nothing; a call that returns Err is replayed up to the rule whose action fails (C02.segAcceptErr); execute_workflow is replayed step by step "
+        "the same way (C02.segWorkflow, also when it returns Err: the oracle is never blind)) are evaluated on the implementation's observations. "
         "non-trivial = a rule fired whose firing depended on an attribute (no-loop, lock-on-active, activation group, date window, non-MAIN group); "
         "distinct = distinct case text.")
 TRUSTED = [
